@@ -183,7 +183,10 @@ package ice
 // Parsing arbitrary text never panics: every position the parser passes on to a token reader lies inside
 // the text (preconditions of the readers) and its own indexing and slicing is in bounds.
 //@ func UnmarshalCandidate
-//@   props C16
+//@   props C16 C06
+//@   ghostvar tcpT TCPType = TCPTypeUnspecified
+//@   site call NewTCPType#1 ghost tcpT := result
+//@   ensures C06 C16 the-parsed-tcp-type-is-kept-for-every-candidate-type: result1 == nil ==> baseOf(result0).tcpType == tcpT
 //@ func tryReadRelativeAddrs
 //@   props C16
 //@   requires in-range: 0 <= start && start <= len(raw)
